@@ -22,6 +22,13 @@ def classify(prop, sig):
         if "RefsFileExistsButCidObjMissing" in api and all(o in allowed for o in outs) \
                 and sig.get("locked") == [[], []] and not sig.get("residue") and sig.get("kind") == "state":
             return prop + "-R1"
+    if prop == "C09":
+        # C09-F1: a ONE-OFF error at the rename of a temp file onto a permanent address, then an incomplete permanent file
+        if sig.get("part") == "crash-after-fault" and sig.get("mode") == "one-off" and \
+                sig.get("fault_at", "").rsplit("#", 1)[0] in ("rename:rename:objects/tmp:objects", "rename:rename:refs/tmp:refs/pids",
+                                                               "rename:rename:metadata/tmp:metadata") and \
+                ("holds 0 bytes" in sig.get("what", "") or "holds b''" in sig.get("what", "")):
+            return "C09-F1"
     if prop == "C13":
         site = sig.get("site", "")
         refs_site = ":refs/cids" in site or ":refs/pids" in site
